@@ -315,15 +315,59 @@ func condsAt(in ssa.Instruction) []condFact { return impliedConds(in.Block()) }
 // expandConds flattens negations: !x true => x false.
 func expandConds(cs []condFact) []condFact {
 	var out []condFact
-	var add func(c condFact)
-	add = func(c condFact) {
+	seen := map[condFact]bool{}
+	var add func(c condFact, depth int)
+	add = func(c condFact, depth int) {
+		if seen[c] || depth > 6 {
+			return
+		}
+		seen[c] = true
 		out = append(out, c)
 		if u, ok := c.Cond.(*ssa.UnOp); ok && u.Op == token.NOT {
-			add(condFact{u.X, !c.True})
+			add(condFact{u.X, !c.True}, depth+1)
+		}
+		// short-circuit forms: a && b is phi[false, …, b]; a || b is phi[true, …, b].
+		// If the phi is known to differ from the constant edges, the single non-constant
+		// edge was taken: its value and the conditions on that edge hold.
+		if ph, ok := c.Cond.(*ssa.Phi); ok {
+			if bt, ok := ph.Type().Underlying().(*types.Basic); ok && bt.Kind() == types.Bool {
+				var nonConst []int
+				allOpp := true
+				for i, e := range ph.Edges {
+					k, isK := e.(*ssa.Const)
+					if !isK || k.Value == nil {
+						nonConst = append(nonConst, i)
+						continue
+					}
+					if (k.Value.String() == "true") == c.True {
+						allOpp = false // a constant edge agrees with the known value: cannot tell which edge
+					}
+				}
+				if allOpp && len(nonConst) == 1 {
+					i := nonConst[0]
+					add(condFact{ph.Edges[i], c.True}, depth+1)
+					for _, ec := range edgeCondsRaw(ph.Block().Preds[i], ph.Block()) {
+						add(ec, depth+1)
+					}
+				}
+			}
 		}
 	}
 	for _, c := range cs {
-		add(c)
+		add(c, 0)
+	}
+	return out
+}
+
+// edgeCondsRaw: conditions known along the edge pred -> blk (not expanded).
+func edgeCondsRaw(pred, blk *ssa.BasicBlock) []condFact {
+	out := impliedConds(pred)
+	if iff, ok := pred.Instrs[len(pred.Instrs)-1].(*ssa.If); ok && pred.Succs[0] != pred.Succs[1] {
+		if pred.Succs[0] == blk {
+			out = append(out, condFact{iff.Cond, true})
+		} else if pred.Succs[1] == blk {
+			out = append(out, condFact{iff.Cond, false})
+		}
 	}
 	return out
 }
